@@ -293,3 +293,24 @@ func (b *Tok) Project(ctx sdk.Context) any {
 		"obsExt": int64(lobh.ExternalBlockHeight), "obsFx": int64(lobh.BlockHeight) - a.base, "lastObs": seq(st, types.LastObservedEventNonceKey),
 		"extH": e.ExtH, "queue": e.Queue, "xbt": e.Xbt, "xlast": e.Xlast, "obsOut": e.ObsOut}
 }
+
+// WithinBounds keeps the recorder inside the projection's tables.
+func (b *Tok) WithinBounds(ctx sdk.Context, op graph.Op) bool {
+	st := ctx.KVStore(b.storeKey)
+	next := func(key []byte) int64 {
+		if n := seq(st, key); n > 0 {
+			return n
+		}
+		return 1
+	}
+	switch op.Name() {
+	case "Send":
+		return next(types.KeyLastTxPoolID) <= int64(b.C.MaxTx)
+	case "RequestBatch":
+		return next(types.KeyLastOutgoingBatchID) <= int64(b.C.MaxBatch)
+	case "ExtExecBatch", "ExtOther":
+		e := b.getTokEnv(ctx)
+		return int(seq(st, types.LastObservedEventNonceKey))+len(e.Queue) < b.C.MaxEv
+	}
+	return true
+}
